@@ -37,6 +37,8 @@ type ev struct {
 
 func (e ev) String() string {
 	switch e.kind {
+	case 'E':
+		return fmt.Sprintf("w%d:write-empty-datagram", e.w)
 	case 'C':
 		return fmt.Sprintf("w%d:close", e.w)
 	case 'X':
@@ -46,7 +48,10 @@ func (e ev) String() string {
 }
 
 // scripts: all sequences of <=2 writes over {line, fragment}, then close
-func scripts(maxWrites int) [][]byte {
+func scripts(maxWrites int, alphabet ...byte) [][]byte {
+	if len(alphabet) == 0 {
+		alphabet = []byte{'L', 'F'}
+	}
 	out := [][]byte{{'C'}}
 	var rec func(cur []byte)
 	rec = func(cur []byte) {
@@ -56,7 +61,7 @@ func scripts(maxWrites int) [][]byte {
 		if len(cur) == maxWrites {
 			return
 		}
-		for _, k := range []byte{'L', 'F'} {
+		for _, k := range alphabet {
 			rec(append(cur, k))
 		}
 	}
@@ -77,7 +82,9 @@ func merges(ss [][]byte) [][]ev {
 				done = false
 				k := ss[w][pos[w]]
 				e := ev{w: w, kind: k}
-				if k != 'C' {
+				if k == 'E' {
+					e.data = "" // a zero-length datagram
+				} else if k != 'C' {
 					e.data = fmt.Sprintf("w%dp%d", w, pos[w])
 					if k == 'L' {
 						e.data += "\n"
@@ -222,7 +229,7 @@ func runScenario(kind string, nw int, events []ev, settled bool, dir string, seq
 	closedWriters, wrote := 0, false
 	for _, e := range events {
 		switch e.kind {
-		case 'L', 'F':
+		case 'L', 'F', 'E':
 			if _, err := ws[e.w].Write([]byte(e.data)); err != nil {
 				res.err = fmt.Sprintf("%s: %v", e, err)
 			}
@@ -230,7 +237,7 @@ func runScenario(kind string, nw int, events []ev, settled bool, dir string, seq
 			if e.kind == 'L' {
 				wantLines++
 				pendingFrag[e.w] = false
-			} else {
+			} else if e.kind == 'F' {
 				pendingFrag[e.w] = true
 			}
 		case 'C':
@@ -470,6 +477,17 @@ func main() {
 	for _, k := range kinds {
 		// cancellation of a stream nobody ever wrote to
 		jobs = append(jobs, job{k, 0, []ev{{kind: 'X'}}, true})
+		if k == "unixgram" || k == "udp" {
+			// zero-length datagrams are legal and must not end the stream
+			for _, a := range scripts(3, 'L', 'E') {
+				addOrders(k, [][]byte{a})
+			}
+			for _, a := range scripts(2, 'L', 'E') {
+				for _, b := range scripts(1, 'L', 'E') {
+					addOrders(k, [][]byte{a, b})
+				}
+			}
+		}
 		for _, a := range sc {
 			addOrders(k, [][]byte{a})
 			for _, b := range sc {
@@ -633,5 +651,5 @@ func main() {
 		"in burst mode and after an early cancellation only splicing, closure and termination are judged (data written but not yet read when the stream is cancelled may be lost)",
 		"standard input is the same code path as a named pipe (fifoStream on os.Stdin) and is not driven separately",
 	}
-	c.Finish("for each of named pipe, unix and tcp stream sockets, unixgram and udp datagram sockets: 1-2 writers (thorough 3) with every script of <=2 writes over {complete line, unterminated fragment} ending in close, every interleaving of the scripts, cancellation at the end (single writer and thorough: at every position), settled and burst mode, on real kernel objects: per connection / pipe the newline-terminated data arrives as lines in write order, a stream connection's or pipe's tail arrives once at close, no delivered line mixes bytes of two connections or senders, the output ends after writer close (pipe) or cancellation, all goroutines finish; distinct_nontrivial = distinct (stream, mode, event order)")
+	c.Finish("for each of named pipe, unix and tcp stream sockets, unixgram and udp datagram sockets: 1-2 writers (thorough 3) with every script of <=2 writes over {complete line, unterminated fragment} (datagram sockets also: <=3 writes over {complete line, zero-length datagram}) ending in close, every interleaving of the scripts, cancellation at the end (single writer and thorough: at every position), settled and burst mode, on real kernel objects: per connection / pipe the newline-terminated data arrives as lines in write order, a stream connection's or pipe's tail arrives once at close, no delivered line mixes bytes of two connections or senders, the output ends after writer close (pipe) or cancellation, all goroutines finish; distinct_nontrivial = distinct (stream, mode, event order)")
 }
